@@ -285,7 +285,7 @@ func c08RunCrash(cs c08CrashSpec, seed uint64, sub int, r *kit.Rand, dir string)
 
 	// ---- debris of earlier attempts
 	if cs.Op == "put" {
-		opts := []string{"none", "none", "failed-attempt", "longer-planted"}
+		opts := []string{"none", "none", "failed-attempt", "longer-planted", "extension-planted"}
 		if n >= 2 {
 			opts = append(opts, "garbage-prefix-crash", "garbage-prefix-crash", "good-prefix-crash", "good-then-garbage-crash")
 		}
@@ -295,6 +295,8 @@ func c08RunCrash(cs c08CrashSpec, seed uint64, sub int, r *kit.Rand, dir string)
 			c08Put(c, blob, c08Src{Kind: "err", At: r.Intn(n + 1)}, r)
 		case "longer-planted":
 			os.WriteFile(c.GetFile(blob.d), kit.NewRand(seed, "C08-planted", sub).Bytes(n+r.Range(1, 9)), 0o666)
+		case "extension-planted": // the right content followed by trailing bytes: every prefix check passes
+			os.WriteFile(c.GetFile(blob.d), append(append([]byte(nil), blob.data...), kit.NewRand(seed, "C08-planted", sub).Bytes(r.Range(1, 9))...), 0o666)
 		case "garbage-prefix-crash":
 			if _, ok := child("debris", c08ChildSpec{Op: "put", Src: c08Src{Kind: "garbage", Per: c08PickPer(r, n)}, Kill: r.Range(1, n-1)}, false); !ok {
 				return
